@@ -393,6 +393,9 @@ def gen_scenario(ch, prof):
                     nodes[n]['sources'].insert(0, entry)
                 else:
                     nodes[n]['sources'].append(entry)
+                if _chance(ch, 1, 2):
+                    # make the mixed consumer the slow one, so that a publisher that wrongly stopped waiting for it shows
+                    nodes[n]['proc_ns'] = [ch.pick('gen', [150, 300]) * MS]
 
     # some sinks use the MQ API directly with long (or no) receive time-outs instead of Filter.loop_once's polling
     if prof.api_consumers:
